@@ -159,7 +159,7 @@ func genDestValue(typ *itype, n *node) func(*frame) reflect.Value {
 	switch {
 	case isInterfaceSrc(typ) && (!isEmptyInterface(typ) || len(n.typ.method) > 0):
 		return genValueInterface(n)
-	case isNamedFuncSrc(n.typ):
+	case isNamedFunc(n):
 		return genFunctionWrapper(n)
 	case isInterfaceBin(typ):
 		return genInterfaceWrapper(n, typ.rtype)
